@@ -207,3 +207,26 @@ Definition build_string (top sub : N) (sf : option N) (q : option N) (ps : list 
 
 (* toString of a parsed media type: the text it was parsed from *)
 Definition to_string (m : media) : bytes := md_raw m.
+
+(* setQuality / setParam on a PARSED value (fix of the fifth round: before, the text the value was parsed from stayed as it was and
+   the change was not written).  Type, subtype and suffix stay as written - the text up to the first ';' or blank -, the quality
+   and the parameters are written anew behind it.  (The parameters live in an unordered map: their order in the text is the
+   container's; the correspondence compares the texts field by field after parsing them again.) *)
+Fixpoint essence (s : bytes) : bytes :=
+  match s with
+  | [] => []
+  | c :: r => if ascii_eqb c ";" || ascii_eqb c " " then [] else c :: essence r
+  end.
+Definition refresh (top : N) (sub : subk) (suf : sufk) (q : option N) (ps : list (bytes * bytes)) (raw : bytes) : media :=
+  mkMedia top sub suf q ps
+    (essence raw ++ (match q with Some v => list_of_string "; " ++ q_string v | None => [] end)
+     ++ flat_map (fun p : bytes * bytes => list_of_string "; " ++ fst p ++ "="%char :: snd p) ps).
+Definition set_quality (m : media) (v : N) : media :=
+  refresh (md_top m) (md_sub m) (md_suffix m) (Some v) (md_params m) (md_raw m).
+Fixpoint put_param (ps : list (bytes * bytes)) (k v : bytes) : list (bytes * bytes) :=
+  match ps with
+  | [] => [(k, v)]
+  | (k', v') :: r => if bytes_eqb k' k then (k, v) :: r else (k', v') :: put_param r k v
+  end.
+Definition set_param (m : media) (k v : bytes) : media :=
+  refresh (md_top m) (md_sub m) (md_suffix m) (md_q m) (put_param (md_params m) k v) (md_raw m).
